@@ -268,7 +268,9 @@ class Models:
             return v.val
         if isinstance(v, NoneV):
             return False
-        if isinstance(v, (UnitV, QtyV, ClsV, RateV, FuncV, PyFuncV, TypeV, ObjV, ConvV, NativeV, EnumV)):
+        if isinstance(v, (UnitV, QtyV, ClsV, RateV, FuncV, PyFuncV, TypeV, ConvV, NativeV, EnumV)):
+            return True
+        if isinstance(v, ObjV) and (v.ci is None or self.prog.lookup(v.ci, "__len__") is None):
             return True
         if isinstance(v, NotImplV):
             return True
@@ -288,8 +290,15 @@ class Models:
         if isinstance(v, TupleV):
             return bool(v.items)
         if isinstance(v, ListV):
+            if v.lazy:
+                return True         # a generator object is always truthy
             n = self.list_len(v, node)
             return n != 0
+        if isinstance(v, ObjV) and v.ci is not None and self.prog.lookup(v.ci, "__len__") is not None:
+            n = self.I.call_function(self.prog.lookup(v.ci, "__len__"), [v], {}, node)
+            return self.truth(n, node)
+        if type(v).__name__ == "IterV":
+            return True
         if isinstance(v, TermV):
             return not self.term_is_empty(v, node)
         if isinstance(v, OpaqueV):
@@ -304,6 +313,11 @@ class Models:
         if diff.is_const():
             d = diff.const_value()
             return {"==": d == 0, "!=": d != 0, "<": d < 0, "<=": d <= 0, ">": d > 0, ">=": d >= 0}[op]
+        # registry ids identify the registered class: equal iff the classes are identical
+        sa, sb = _single_atom_of(a), _single_atom_of(b)
+        if sa is not None and sb is not None and sa[0] == "regid" and sb[0] == "regid" and op in ("==", "!="):
+            same = sa[1] in st.tparent and sb[1] in st.tparent and st.tfind(sa[1]) == st.tfind(sb[1])
+            return same if op == "==" else not same
         # positivity knowledge: scales, quanta and powers of ten are positive
         sgn = self.sign_of(diff)
         if sgn is not None:
@@ -313,6 +327,8 @@ class Models:
         flip = {"==": "==", "!=": "!=", "<": ">", "<=": ">=", ">": "<", ">=": "<="}
         holds = lambda o, s: {"==": s == 0, "!=": s != 0, "<": s < 0, "<=": s <= 0, ">": s > 0, ">=": s >= 0}[o]
         allowed = {-1, 0, 1}
+        if sa is not None and sb is not None and sa[0] == "regid" and sb[0] == "regid":
+            allowed = {-1, 1}       # distinct classes have distinct registry ids
         for (k, o, res) in st.cmp_facts:
             if k == nkey and nkey != key:
                 k, o = key, flip[o]
@@ -338,7 +354,7 @@ class Models:
         signs = set()
         for m, c in rf.n.t.items():
             for a, e in m:
-                if a[0] not in ("mu", "rho", "Qm", "sf", "pw10", "beta", "const"):
+                if a[0] not in ("mu", "rho", "Qm", "sf", "pw10", "beta", "const", "regid"):
                     return None
             signs.add(1 if c / rf.d.const_value() > 0 else -1)
         if len(signs) == 1:
@@ -425,6 +441,17 @@ class Models:
         return Num(self.mu(u) / RF.atom(("beta", st.ufind(u.uid))), "exact")
 
     def unit_definition_field(self, u: UnitV, node) -> V:
+        d = self.st.unit_defs.get(u.uid)
+        if d is None:
+            d = self.st.unit_defs.get(self.st.ufind(u.uid))
+        if d is None and self.st.unit_defs:
+            rep = self.st.ufind(u.uid)
+            for k_, v_ in self.st.unit_defs.items():
+                if k_ in self.st.uparent and self.st.ufind(k_) == rep:
+                    d = v_
+                    break
+        if d is not None:
+            return NONE if d == "base" else d
         k = self.unit_kind(u, node)
         if k == "base":
             return NONE
@@ -641,7 +668,13 @@ class Models:
                         return self.dict_get(d, args[0], n)
                     except AbsRaise:
                         return args[1] if len(args) > 1 else NONE
-                if attr in ("pop", "clear", "setdefault", "popitem"):
+                if attr == "setdefault":
+                    try:
+                        return self.dict_get(d, args[0], n)
+                    except AbsRaise:
+                        d.items.append((args[0], args[1] if len(args) > 1 else NONE))
+                        return d.items[-1][1]
+                if attr in ("pop", "clear", "popitem"):
                     return OpaqueV(f"dict.{attr}")
                 self.I.unsupported(n, f"dict method {attr}")
             return NativeV(dictcall, f"dict.{attr}")
@@ -817,6 +850,9 @@ class Models:
             return NativeV(quantize, "Decimal.quantize")
         if attr in ("real",):
             return v
+        if v.kind == "float" or attr.startswith("is_") or attr in ("norm_sort_key", "definition", "normalized_definition"):
+            self.flag("missing-attribute", node, f"{v.kind} number has no attribute {attr}")
+            self.I.raise_("AttributeError", node)
         self.I.unsupported(node, f"number attribute {attr}")
 
     def str_attr(self, v: StrV, attr, node):
@@ -860,6 +896,15 @@ class Models:
                 if v.items is not None:
                     v.items.append(args[0])
                 return NONE
+            if attr == "sort" and v.items is not None and kwargs.get("key") is not None:
+                v.items[:] = self.stable_sort(v.items, kwargs["key"], kwargs.get("reverse"), n)
+                return NONE
+            if attr == "extend" and v.items is not None:
+                seq = self.iterate(args[0], n)
+                if seq is None:
+                    self.I.unsupported(n, "extend with opaque iterable")
+                v.items.extend(seq)
+                return NONE
             if attr in ("pop", "remove", "insert", "extend", "clear", "sort", "reverse"):
                 if v.items is not None:
                     self.I.unsupported(n, f"list.{attr} on concrete list")
@@ -870,6 +915,8 @@ class Models:
     # =============================================================== items
     def get_item(self, obj, key, node):
         I = self.I
+        if isinstance(key, SliceV):
+            return self.get_slice(obj, key.lo, key.hi, node)
         if isinstance(obj, TupleV) or (isinstance(obj, ListV) and obj.items is not None):
             items = obj.items
             if isinstance(key, Num) and self.st.norm(key.rf).is_const():
@@ -925,6 +972,8 @@ class Models:
             return a.const == b.const
         if isinstance(a, NoneV) or isinstance(b, NoneV):
             return isinstance(a, NoneV) and isinstance(b, NoneV)
+        if isinstance(a, Num) and isinstance(b, Num):
+            return self.truth(CmpV("==", a, b), node)
         if type(a) is not type(b):
             return False
         return a is b
@@ -951,10 +1000,20 @@ class Models:
                      name="tbl:" + uid)
 
     def get_slice(self, obj, lo, hi, node):
+        def idx(x):
+            if x is None or isinstance(x, NoneV):
+                return None
+            if isinstance(x, Num) and self.st.norm(x.rf).is_const():
+                return int(self.st.norm(x.rf).const_value())
+            self.I.unsupported(node, "symbolic slice bound")
         if isinstance(obj, TupleV):
-            l = int(lo.rf.const_value()) if lo else None
-            h = int(hi.rf.const_value()) if hi else None
-            return TupleV(obj.items[l:h])
+            return TupleV(obj.items[idx(lo):idx(hi)])
+        if isinstance(obj, ListV) and obj.items is not None:
+            return ListV(obj.items[idx(lo):idx(hi)])
+        if isinstance(obj, ObjV) and obj.ci is not None:
+            fi = self.prog.lookup(obj.ci, "__getitem__")
+            if fi is not None:
+                return self.I.call_function(fi, [obj, SliceV(lo, hi)], {}, node)
         self.I.unsupported(node, "slice")
 
     def set_item(self, obj, key, v, node):
@@ -1105,6 +1164,9 @@ class Models:
             rest = v.seq[v.pos:]
             v.pos = len(v.seq)
             return rest
+        if isinstance(v, ObjV) and v.ci is not None and self.prog.lookup(v.ci, "__iter__") is not None:
+            it = self.I.call_function(self.prog.lookup(v.ci, "__iter__"), [v], {}, node)
+            return self.iterate(it, node)
         if isinstance(v, (ListV, OpaqueV, TermV, GlobalMapV)):
             return None
         if isinstance(v, StrV):
@@ -1138,6 +1200,14 @@ class Models:
             self.flag("bad-unpack", node, f"cannot unpack {v!r}")
             self.I.raise_("TypeError", node)
         self.I.unsupported(node, f"unpack of {v!r}")
+
+
+def _single_atom_of(rf):
+    if rf.d.is_const() and rf.n.is_monomial():
+        (m, c), = rf.n.t.items()
+        if c == rf.d.const_value() and len(m) == 1 and m[0][1] == (1, 0):
+            return m[0][0]
+    return None
 
 
 class DictV(V):
